@@ -388,6 +388,10 @@ def check_sections(fx, rep, rule, wv, seqs):
                 if t[0] == "call" and t[1].endswith("Iterator::flat_map") and t[2][0][0] == "call" \
                         and t[2][0][1].endswith(("BTreeMap::into_values", "BTreeMap::values")) and t[2][0][2][0] == mk_field(R.ELEM, X):
                     src_ok = True
+                # `.into_values().flatten()`: the same sequence (each Vec yields its entries in order)
+                if t[0] == "call" and t[1].endswith("Iterator::flatten") and len(t[2]) == 1 and t[2][0][0] == "call" \
+                        and t[2][0][1].endswith(("BTreeMap::into_values", "BTreeMap::values")) and t[2][0][2][0] == mk_field(R.ELEM, X):
+                    src_ok = True
             rep.check(rule, "%s/tiling/%s-extend" % (rule, X), ext is not None and src_ok and (off is None or off[0] < ext[0]), loc=F.loc(FL_["node"]),
                       found="extend(%s, %s)%s" % (vec, S.tstr(ext[1]) if ext else "-", "" if (off and ext and off[0] < ext[0]) else " [offset not taken before the extend]"),
                       expected="offset taken, then %s extended with this class's %s map values in key order (into_values + flat_map)" % (vec, X))
